@@ -574,11 +574,26 @@ class dir_archive(archive):
     def _getkey(self, root):
         "get key given a results subdirectory name"
         key = os.path.basename(root)[2:]
-        return self._lookup(key,input=True) if self._hasinput(root) else key
+        # another process replaces (or removes) an entry as a whole: it moves
+        # the subdirectory aside, then empties it.  Only trust a listing of
+        # the subdirectory that is still in place afterwards
+        for retry in range(3):
+            try:
+                before = os.stat(root)
+                names = os.listdir(root)
+                if os.path.samestat(before, os.stat(root)): break
+            except OSError: raise KeyError(key)
+        else: raise KeyError(key)
+        return self._lookup(key,input=True) if self._args in names else key
     def _keydict(self):
         "get a dict of subdirectories in the root directory, with dummy values"
-        keys = self._lsdir()
-        return dict((self._getkey(key),None) for key in keys)
+        memo = {}
+        for key in self._lsdir():
+            # skip an entry that vanished since the listing, instead of
+            # reporting the name of its directory as if that were the key
+            try: memo[self._getkey(key)] = None
+            except KeyError: pass
+        return memo
         #FIXME: dict((i,self._getkey(key)) for i,key in enumerate(keys))
     def _reverse_lookup(self, args): #XXX: guaranteed 1-to-1 mapping?
         "get subdirectory name from args"
